@@ -97,3 +97,41 @@ Theorem select_old_refuted :
   | _ => False
   end.
 Proof. vm_compute. split; reflexivity. Qed.
+
+(* round 3, following fix d0ddbff : the selection only replaces a REFERENCED DDict; when the current dictionary is the copy made by
+   ZSTD_DCtx_loadDictionary (or a pending prefix) - [local] = true - it is left alone and the ordinary dictID check decides *)
+Definition select_cur (h : N -> N) (s : hset) (local : bool) (active : entry) (fid : N) : verdict :=
+  if local then decide (HOk None) active fid else select h s active fid.
+
+Theorem select_cur_names_frame_dictionary : forall (h : N -> N) (l : list entry) (s : hset) (local : bool) (active : entry) (fid : N),
+  add_all h next_fixed l create = HOk s ->
+  match select_cur h s local active fid with
+  | Decode e => (fid = 0 /\ e = active) \/ (fid <> 0 /\ fst e = fid)
+  | Refuse => fid <> 0 /\ fst active <> fid
+  | Broken => False
+  end.
+Proof.
+  intros h l s local active fid E. unfold select_cur. destruct local.
+  - unfold decide. destruct (fid =? 0) eqn:Z; cbn [orb].
+    + left. apply N.eqb_eq in Z. auto.
+    + apply N.eqb_neq in Z. destruct (fst active =? fid) eqn:A.
+      * right. split; auto. now apply N.eqb_eq.
+      * split; auto. now apply N.eqb_neq.
+  - pose proof (select_names_frame_dictionary h l s active fid E) as H.
+    destruct (select h s active fid); auto. destruct H as [A [B _]]. auto.
+Qed.
+
+(* a dictionary loaded into the context is never replaced by a frame, whatever the table of referenced DDicts holds *)
+Theorem loaded_dictionary_never_replaced : forall (h : N -> N) (s : hset) (active e : entry) (fid : N),
+  select_cur h s true active fid = Decode e -> e = active.
+Proof.
+  intros h s active e fid. unfold select_cur, decide. destruct ((fid =? 0) || (fst active =? fid)); intros H; inversion H; reflexivity.
+Qed.
+
+(* before d0ddbff the loaded dictionary was replaced (and freed) by the selection : table {26}, dictionary 777 loaded, frame naming 26 *)
+Example loaded_dictionary_replaced_before_fix :
+  match add_all xxh_hash next_fixed [(26, 1)] create with
+  | HOk s => select xxh_hash s (777, 2) 26 = Decode (26, 1) /\ select_cur xxh_hash s true (777, 2) 26 = Refuse
+  | _ => False
+  end.
+Proof. vm_compute. split; reflexivity. Qed.
